@@ -20,7 +20,7 @@ CHECKS = {
             "git repository stubbed in memory; commit times strictly increasing along history", "DESIGN.md 3/C06"),
     "C10": ("XH", "CrossHair-driven enumeration of rendering histories (z3 choice variables for the first step, native sweep of the rest) over long-lived printable objects, with id() as seen by ak.ppobj "
             "replaced by an adversarial environment stub constrained by CPython's contract; compared with fresh objects / no_color twins through an independent SGR stripper",
-            "bounded exhaustive exploration: histories of <= 2 steps exhaustively (<= 3-4 partially) over 5 object kinds x 3 configurations x no_color x explicit/global route; "
+            "bounded exhaustive exploration: histories of <= 2 steps exhaustively (<= 3-4 partially) over 6 object kinds (incl. the git history report) x 3 configurations x no_color x explicit/global route; "
             "configurations created and discarded between steps; id() may hand a new palette the id of any discarded one; every result also consumed line by line across the next step",
             "id() stub is the environment model (replay first tries real CPython address reuse, then the stub); console help only for layout-vs-colors", "DESIGN.md 3/C10"),
     "C18": ("XH", "CrossHair-driven enumeration (z3 choice variables: column permutation, leading blank rows, table offset, end rule, ladder, missing optional column) with native sweeps over row contents; "
@@ -43,7 +43,7 @@ CHECKS = {
             "regex engine is an environment stub in the symbolic part (contract: match starts at the requested column, non-empty); stub spaces may not exhaust in quick (reported)",
             "DESIGN.md 3/C04"),
     "C01": ("XH", "CrossHair-driven exhaustive enumeration (z3 choice variables) of grammar-family holes; real parser on ALL token strings up to the length bound, independent derivation checker",
-            "bounded exhaustive exploration with exhaustion certificate: every instantiation of 26 shape families (alternatives as written and reversed) x both smart_factorization settings x all token strings of length <= 4 (quick) / 6 (thorough); every skip_tokens choice x all texts of <= 6 (7) symbols",
+            "bounded exhaustive exploration with exhaustion certificate: every instantiation of 28 shape families (alternatives as written and reversed) x both smart_factorization settings x all token strings of length <= 4 (quick) / 6 (thorough); every skip_tokens choice x all texts of <= 6 (7) symbols",
             "structural property: the solver enumerates; step budget per parse; real tokenizer with synonym and keyword terminals", "DESIGN.md 3/C01"),
     "C02": ("XH", "as C01, with independent FIRST/FOLLOW/predict and fixpoint recogniser as oracles",
             "bounded exhaustive exploration: for every family grammar that is LL(1) as written or whose table the parser reports conflict-free, acceptance == sentence-hood for all strings up to the bound, "
